@@ -424,7 +424,9 @@ def c12_streams(ctx):
                 for s in [ch, "a" + ch + "b", ch + ch]:
                     gs.append(Group([Case(p, f, "is_match", s), Case(p, f, "analyze", s)], {"features": set(), "input": s, "ast": ast, "flags": f}))
     # anchors as bare branches of an alternation after a repeat, and next to quantified terms
-    for p in ["a*(?:^|b)a", "[ab]{0,3}(?:^|c)b", "x\n*(?:^|b)\ny", "x\n*(?:$|b)\ny", "a+(?:$|b)", "(?:a|^)+b", "a*(?:b|$)a", "(?:^a|b)*c", "a?(?:^|$)a"]:
+    for p in ["a*(?:^|b)a", "[ab]{0,3}(?:^|c)b", "x\n*(?:^|b)\ny", "x\n*(?:$|b)\ny", "a+(?:$|b)", "(?:a|^)+b", "a*(?:b|$)a", "(?:^a|b)*c", "a?(?:^|$)a",
+              # a quantified single character directly followed by an anchor (the repeat must be able to give everything back)
+              "a*^a", "a?^a", "[ab]*^ab", ".*^ab", "a{0,2}^a", "a*?^a", "a*$", "a*$a", "a+$", "[ab]*$b", "b*^", "a*^$", "x*^ab", "a*^a|b"]:
         ast = parse_escaped(p.replace("\\n", "\n")) if "\\" in p else parse_full(p)
         for f in flagsets:
             for s in ["a", "b", "ab", "aa", "x\n\ny", "x\ny", "ba", "x\n\n\ny", "c", "aab", "ac"]:
